@@ -20,6 +20,7 @@ type kwCase struct {
 	Seed   uint64
 	Mut    *mutation // on the wrapped key ("ct")
 	RawLen int       // >= 0 with Mut == nil and PtLen < 0: Unwrap of RawLen arbitrary bytes
+	RawIV  bool      // ... whose first (up to) 8 bytes are the RFC 3394 default initial value A6..A6
 }
 
 func (c kwCase) String() string {
@@ -27,7 +28,7 @@ func (c kwCase) String() string {
 	if c.Mut != nil {
 		m = c.Mut.String()
 	}
-	return fmt.Sprintf("aeskw{kek=%d pt=%d raw=%d seed=%#x mut=%s}", c.KekLen, c.PtLen, c.RawLen, c.Seed, m)
+	return fmt.Sprintf("aeskw{kek=%d pt=%d raw=%d rawIV=%v seed=%#x mut=%s}", c.KekLen, c.PtLen, c.RawLen, c.RawIV, c.Seed, m)
 }
 
 func kwWrap(kek, pt []byte) (out []byte, err error, pnc any) {
@@ -64,6 +65,11 @@ func checkKW(c kwCase) (string, caseStat) {
 	if c.PtLen < 0 {
 		// arbitrary input to Unwrap: a wrapped key is n+1 >= 3 blocks of 8 bytes (RFC 3394 §2.2.2)
 		raw := vk.Expand(c.Seed^0x5151, c.RawLen)
+		if c.RawIV {
+			for i := 0; i < 8 && i < len(raw); i++ {
+				raw[i] = 0xA6
+			}
+		}
 		out, err, pnc := kwUnwrap(kek, raw)
 		if pnc != nil {
 			return fmt.Sprintf("Unwrap of %d arbitrary bytes panicked: %v", c.RawLen, pnc), st
@@ -140,7 +146,7 @@ func (c kwCase) fp() uint64 {
 	if c.Mut != nil {
 		m = c.Mut.String()
 	}
-	return vk.FP("kw", c.KekLen, c.PtLen, c.RawLen, m)
+	return vk.FP("kw", c.KekLen, c.PtLen, c.RawLen, c.RawIV, m)
 }
 
 // TestKeyWrapSweep: key-encryption-key size x key data length 0..80; Unwrap of
@@ -167,6 +173,7 @@ func TestKeyWrapSweep(t *testing.T) {
 		}
 		for rl := 0; rl <= 96; rl++ {
 			run(kwCase{KekLen: kl, PtLen: -1, RawLen: rl, Seed: uint64(rl * kl)})
+			run(kwCase{KekLen: kl, PtLen: -1, RawLen: rl, RawIV: true, Seed: uint64(rl * kl)})
 		}
 		for _, pl := range []int{16, 24, 32, 40, 64} {
 			n := pl + 8
@@ -193,6 +200,7 @@ func TestKeyWrapRapid(t *testing.T) {
 		case 0:
 			c.PtLen = -1
 			c.RawLen = rapid.IntRange(0, 200).Draw(rt, "rawLen")
+			c.RawIV = rapid.Bool().Draw(rt, "rawIV")
 		case 1:
 			c.PtLen = rapid.IntRange(0, 200).Draw(rt, "ptLen")
 		default:
